@@ -483,17 +483,26 @@ impl<T: Qcow2IoOps> Qcow2Dev<T> {
 
         // zero clusters with a preallocation keep their host cluster
         let mut reused = false;
+        let mut reuse_res = Ok(());
         for this_off in (start..end).step_by(cls_size as usize) {
             let s = SplitGuestOffset(this_off);
 
-            if self.reuse_preallocation(&s, &mut l2_table).await? {
-                reused = true;
+            match self.reuse_preallocation(&s, &mut l2_table).await {
+                Ok(true) => reused = true,
+                Ok(false) => {}
+                Err(err) => {
+                    reuse_res = Err(err);
+                    break;
+                }
             }
         }
         if reused {
             l2_handle.set_dirty(true);
             self.mark_need_flush(true);
         }
+        // entries remapped before the failure stay remapped: the slice had
+        // to be marked dirty first
+        reuse_res?;
 
         // figure out how many clusters to allocate for write
         let mut nr_clusters = 0;
